@@ -177,6 +177,39 @@ def misuse_histories():
     return out
 
 
+def uncaught_histories():
+    """The report of an UNCAUGHT exception is built by the interpreter itself from the thrown value (class, context, trace): every kind
+    of value, thrown at top level, from a call and from a fiber, must end the snippet with a reported error - also values that contain
+    themselves, errors whose context (chain) leads back to an error already seen, and long chains of wrapped errors - and the
+    interpreter must be usable afterwards."""
+    defs = ("#[constructor(new)] class Box { }\n#[derive(ValueError)] class PE { #[constructor] fn new(self, c) { self.context = c; } }\n"
+            "#[derive(PE)] class PE2 { #[constructor] fn new(self, c) { super.new(c); self.extra = self; } }\nfn id(x) { return x; }\n")
+    shapes_ = {
+        "nil": "nil", "bool": "false", "number": "-0", "nan": "(0/0)", "string": "\"s\\n${1}\"", "empty-string": "\"\"", "vec": "[1, [2]]", "map": "{1: {2: 3}}", "tuple": "(1, (2,))",
+        "range": "(0..3)", "class": "Box", "builtin-class": "ValueError", "instance": "Box.new()", "closure": "|| 1", "fn": "id", "native": "print", "bound": "[1].len",
+        "bound-user": "PE.new(1).derives", "fiber": "Fiber.new(|| 1)", "iterator": "[1].iter()", "adapter": "[1].iter().map(id)", "error": "Error.new(\"plain\")",
+        "error-nil": "Error.new(nil)", "error-in-error": "Error.new(ValueError)", "user-error": "PE.new(\"u\")", "user-error-2": "PE2.new([1, 2])",
+        "vec-in-itself": "(|| { var v = [1]; v.push(v); return v; })()", "map-in-itself": "(|| { var m = {}; m.insert(1, m); return m; })()",
+        "tuple-cycle": "(|| { var v = []; var t = (v, 1); v.push(t); return t; })()",
+        "instance-in-itself": "(|| { var b = Box.new(); b.me = b; b.context = b; return b; })()",
+        "error-context-itself": "(|| { var e = Error.new(\"x\"); e.context = e; return e; })()",
+        "error-context-cycle-2": "(|| { var a = Error.new(\"a\"); var b = Error.new(a); a.context = b; return a; })()",
+        "user-error-context-itself": "(|| { var p = PE.new(nil); p.context = p; return p; })()",
+        "user-error-cycle-3": "(|| { var a = PE.new(nil); var b = PE2.new(a); var c = Error.new(b); a.context = c; return b; })()",
+        "error-context-vec-with-error": "(|| { var e = Error.new(nil); e.context = [e, (e,), {1: e}]; return e; })()",
+        "error-chain-3000": "(|| { var e = Error.new(\"root\"); var i = 0; while i < 3000 { e = PE.new(e); i = i + 1; } return e; })()",
+        "error-context-fiber": "Error.new(Fiber.new(|| 1))", "error-context-class": "PE.new(PE)",
+    }
+    wraps = {"top": "throw %s;\n", "call": "fn thrower(v) { throw v; }\nfn outer(v) { return thrower(v); }\nouter(%s);\n",
+             "fiber": "var fb = Fiber.new(|v| { throw v; });\nfb.call(%s);\n", "finally": "try { throw %s; } finally { var pad = 1; }\n",
+             "rethrow": "try { throw %s; } catch e { throw e; }\n"}
+    out = []
+    for sn, expr in shapes_.items():
+        for wn, w in wraps.items():
+            out.append(("history:uncaught/%s/%s" % (sn, wn), [defs + w % expr, 'print("alive");\n', 'print(id(1)); print("alive");\n']))
+    return out
+
+
 def outcome_ok(r):
     c = progs.canon_step(r)
     if c[0] == "crash":
@@ -257,7 +290,7 @@ def correspondence(ctx, model_ok=True):
                                  "signature": ("known " + name.split("-")[0]) if name.startswith("F") else "no-crash: %s: %s" % (name.split(":")[0] + ":" + name.split(":")[-1], bad.split(":")[0][:40]),
                                  "failing_input": True})
     # one interpreter used again after a failure
-    hists = misuse_histories()
+    hists = misuse_histories() + uncaught_histories()
     for bname, exe, mode in builds:
         hl = [vlib.case_line("h%d" % i, ["S:" + vlib.hx(sn) for sn in snips], steps=20000000) for i, (_, snips) in enumerate(hists)]
         for (hname, snips), r in zip(hists, vlib.run_real(exe, hl)):
@@ -275,7 +308,9 @@ def correspondence(ctx, model_ok=True):
                 last = progs.canon_step(steps[-1])
                 mid = progs.canon_step(steps[-2])
                 if not bad and (last[0] != "ok" or mid[0] != "ok" or mid[2][-1:] != ("alive",)):
-                    bad = "a use of a fiber left behind by a failed snippet was not a reported, catchable error: %s" % (str(mid)[:160],)
+                    bad = "after a failed snippet a later snippet on the same interpreter did not run normally (a use of what the failure left behind was not a reported, catchable error): %s" % (str(mid)[:160],)
+                if not bad and "/uncaught/" in hname.replace("history:uncaught", "/uncaught") and progs.canon_step(steps[0])[0] != "err":
+                    bad = "an uncaught throw did not end the snippet with a reported error: %s" % (str(progs.canon_step(steps[0]))[:160],)
             if bad:
                 failures.append({"what": "%s [%s build]: %s" % (hname, bname, bad), "history": snips, "name": hname, "build": bname,
                                  "signature": "no-crash: %s: %s" % (hname.split("/")[0], bad.split(":")[0][:40]), "failing_input": True})
